@@ -59,6 +59,9 @@ class Fn:
         self.ret_ty = None
         self.locals = {}    # local -> type
         self.blocks = {}    # bbN -> (stmts[], terminator)
+        self.spans = {}     # bbN -> [span per stmt..., terminator span]; span = (file, l1, c1, l2, c2) or None
+        self.cleanup = set()
+        self.debug = {}     # local -> source name
         self.file = None
         self.line = header_line
 
@@ -109,6 +112,7 @@ class Program:
         n = len(lines)
         cur = None
         stmts = []
+        spans = []
         while i < n:
             ln = lines[i]
             if ln.startswith("}"):
@@ -127,20 +131,31 @@ class Program:
                 f.locals[m.group(1)] = m.group(2)
                 i += 1
                 continue
-            m = re.match(r"(bb\d+)(?: \(cleanup\))?: \{$", code)
+            m = re.match(r"debug (\S+) => (_\d+);", code)
+            if m:
+                f.debug[m.group(2)] = m.group(1)
+                i += 1
+                continue
+            m = re.match(r"(bb\d+)( \(cleanup\))?: \{$", code)
             if m:
                 cur = m.group(1)
+                if m.group(2):
+                    f.cleanup.add(cur)
                 stmts = []
+                spans = []
                 i += 1
                 continue
             if code == "}" and cur is not None:
                 term = stmts.pop() if stmts else None
                 f.blocks[cur] = (stmts, term)
+                f.spans[cur] = spans
                 cur = None
                 i += 1
                 continue
             if cur is not None:
                 stmts.append(code)
+                sm = re.search(r"// scope \d+ at (\S+?):(\d+):(\d+): (\d+):(\d+)", ln)
+                spans.append((sm.group(1), int(sm.group(2)), int(sm.group(3)), int(sm.group(4)), int(sm.group(5))) if sm else None)
             i += 1
         return i
 
@@ -152,10 +167,12 @@ class Program:
             raise Unsupported("function %s: %d candidates" % (name, len(c)))
         return c[0]
 
-    def find_fn(self, rx, file_hint=None):
+    def find_fn(self, rx, file_hint=None, arg0=None):
         c = [f for nm, fs in self.fns.items() if re.search(rx, nm) for f in fs]
         if file_hint:
             c = [f for f in c if f.file and file_hint in f.file]
+        if arg0:
+            c = [f for f in c if f.args and re.search(arg0, f.args[0][1])]
         if len(c) != 1:
             raise Unsupported("function /%s/: %d candidates" % (rx, len(c)))
         return c[0]
